@@ -605,6 +605,26 @@ def case_fdladder(p: dict) -> dict:
                    and all(np.array_equal(getattr(res_eom.Deltas, k).coefficients, getattr(res_fd.Deltas, k).coefficients)
                            for k in ("Delta00", "Delta02", "Delta20", "Delta11")))
             if M == p["ladderM"][0]:
+                # the same with a solver configured away from its defaults (collisionMultiplier = 4, the documented
+                # [BoltzmannSolver] option): the finite-difference cross-check is that of THIS solver's equation
+                try:
+                    from WallGo import BoltzmannSolver
+
+                    pair = []
+                    for deriv in ("Spectral", "Finite Difference"):
+                        sx = BoltzmannSolver(grid, "Cardinal", "Cardinal", deriv, collisionMultiplier=4.0)
+                        sx.updateParticleList(parts)
+                        sx.setBackground(bg)
+                        sx.setCollisionArray(_collision_array(Ccard, "Cardinal", grid, parts))
+                        pair.append(sx)
+                    want4 = pair[1].getDeltas()
+                    got4 = wg.construct_eom(boltzmannSolver=pair[0]).getBoltzmannFiniteDifference()
+                    r.true(f"eom-fd-equals-fresh-fd-solver(collisionMultiplier=4)-{tagM}", np.array_equal(got4.deltaF, want4.deltaF),
+                           maxdiff=float(np.max(np.abs(np.asarray(got4.deltaF) - np.asarray(want4.deltaF)))))
+                    r.true(f"collisionMultiplier-matters-{tagM}", not np.array_equal(want4.deltaF, res_fd.deltaF) or kind == "homog")
+                    r.tag("eom-fd-nondefault-multiplier")
+                except Exception as e:  # noqa: BLE001
+                    r.true(f"no-exception-eom-multiplier-{tagM}", False, error=repr(e))
                 # same entry point when the spectral solver uses the Chebyshev momentum basis: the copy's collision
                 # data are converted to the cardinal basis (rounding x conditioning of the basis matrices)
                 s_ch = _solver(grid, "Cardinal", "Chebyshev", "Spectral", parts, bg)
